@@ -529,7 +529,7 @@ def case_script(c, number, leak):
 def run(ctx, standalone=False):
     rng = ctx.rng
     thorough = ctx.tier == "thorough"
-    coq_ok, _res = ctx.coq_obligations(["CalFile/CalFileProofs.v", "Properties_C09cal.v"])
+    coq_ok, _res = ctx.coq_obligations(["CalFile/CalFileProofs.v", "CalFile/CalLoadWf.v", "Properties_C09cal.v"])
     ctx.trusted_base += [
         "C09(cal): Coq 8.16.1 kernel, no axioms (Print Assumptions: Closed under the global context for Properties_C09cal.v)",
         "C09(cal): libyaml supplies the node tree (harness/yamltree.c); the glue checks/c09_model.py attaches the sscanf/strtod oracle values",
@@ -661,7 +661,7 @@ def run(ctx, standalone=False):
     nv = len(ctx.violations)
     c09_model.tie(ctx, cases, trees, outcome, violate)
     if not coq_ok and len(ctx.violations) == nv:
-        ctx.unproved("Properties_C09cal (load_enoprotoopt_iff_version, load_errors_after_version, load_ok_wf_partial)", "the Coq development of the loader model no longer compiles",
+        ctx.unproved("Properties_C09cal (load_enoprotoopt_iff_version, load_errors_after_version, load_ok_wf)", "the Coq development of the loader model no longer compiles",
                      "model vs vnacal_load on %d inputs: no disagreement, no ill-formed accepted object" % len(cases))
 
     ctx.log("C09(cal): calibration inputs evaluated")
